@@ -109,7 +109,7 @@ include hctx hnrm
 /-- `_balance_add`: unchanged, or a rotation -/
 theorem balAdd_rot (t t' : Tru) (a b : BV) (hl : t.lhs = .bin .add a b) (hok : TruOK anno env t)
     (hconv : ∃ p, convBV anno t.lhs [] = .ok p) (h : balAdd t a b = .ok t') (hs : symBV t'.lhs = true) :
-    t' = t ∨ (TruOK anno env t' ∧ Rot env t t') := by
+    t' = t ∨ (TruOK anno env t' ∧ Rot env t t' ∧ ∀ v', evalBV env t'.lhs = some v' → v' < 2 ^ t.w) := by
   obtain ⟨hoa, hob, hwab⟩ := ok_bin (hl ▸ hok.ok)
   have hwa : wd a = t.w := by rw [← hok.wd_eq, hl]; rfl
   obtain ⟨p, hp⟩ := hconv
@@ -134,21 +134,29 @@ theorem balAdd_rot (t t' : Tru) (a b : BV) (hl : t.lhs = .bin .add a b) (hok : T
     have := pureM_ok h; subst this
     obtain ⟨_, hva'⟩ := valOf_spec env a va hva
     rw [hx] at hva'; cases hva'
-    refine Or.inr ⟨⟨hob, hsb, by simp only; rw [← hwab]; exact hwa, conc_sub_lt _ _ _⟩, rfl, rfl, x, by rw [← hwa]; exact hxlt, rfl, ?_⟩
-    intro v' hv' _
-    simp only at hv'
-    rw [hy] at hv'; cases hv'
-    rw [hlv, add_comm']
+    refine Or.inr ⟨⟨hob, hsb, by simp only; rw [← hwab]; exact hwa, conc_sub_lt _ _ _⟩, ⟨rfl, rfl, x, by rw [← hwa]; exact hxlt, rfl, ?_⟩, ?_⟩
+    · intro v' hv' _
+      simp only at hv'
+      rw [hy] at hv'; cases hv'
+      rw [hlv, add_comm']
+    · intro v' hv'
+      simp only at hv'
+      rw [hy] at hv'; cases hv'
+      rw [← hwa, hwab]; exact hylt
   · -- a symbolic, b concrete
     obtain ⟨vb, hvb, h⟩ := bindM_ok h
     have := pureM_ok h; subst this
     obtain ⟨_, hvb'⟩ := valOf_spec env b vb hvb
     rw [hy] at hvb'; cases hvb'
-    refine Or.inr ⟨⟨hoa, hsa, hwa, conc_sub_lt _ _ _⟩, rfl, rfl, y, by rw [← hwa, hwab]; exact hylt, rfl, ?_⟩
-    intro v' hv' _
-    simp only at hv'
-    rw [hx] at hv'; cases hv'
-    exact hlv
+    refine Or.inr ⟨⟨hoa, hsa, hwa, conc_sub_lt _ _ _⟩, ⟨rfl, rfl, y, by rw [← hwa, hwab]; exact hylt, rfl, ?_⟩, ?_⟩
+    · intro v' hv' _
+      simp only at hv'
+      rw [hx] at hv'; cases hv'
+      exact hlv
+    · intro v' hv'
+      simp only at hv'
+      rw [hx] at hv'; cases hv'
+      rw [← hwa]; exact hxlt
   · -- both symbolic
     have := pureM_ok h; subst this
     exact Or.inl rfl
@@ -156,14 +164,16 @@ theorem balAdd_rot (t t' : Tru) (a b : BV) (hl : t.lhs = .bin .add a b) (hok : T
 /-- `_balance_sub`: unchanged, or a rotation -/
 theorem balSub_rot (t t' : Tru) (a b : BV) (hl : t.lhs = .bin .sub a b) (hok : TruOK anno env t)
     (hconv : ∃ p, convBV anno t.lhs [] = .ok p) (h : balSub t a b = .ok t') (hs : symBV t'.lhs = true) :
-    t' = t ∨ (TruOK anno env t' ∧ Rot env t t') := by
+    t' = t ∨ (TruOK anno env t' ∧ Rot env t t' ∧ ∀ v', evalBV env t'.lhs = some v' → v' < 2 ^ t.w) := by
   obtain ⟨hoa, hob, hwab⟩ := ok_bin (hl ▸ hok.ok)
   have hwa : wd a = t.w := by rw [← hok.wd_eq, hl]; rfl
   obtain ⟨p, hp⟩ := hconv
   rw [hl] at hp
   obtain ⟨ob, qb, hqb⟩ := conv_bin_right anno _ _ _ [] p hp
+  obtain ⟨qa, hqa⟩ := conv_bin_left anno _ _ _ [] p hp
   obtain ⟨x, hx⟩ := exprOK_val anno env a hoa
   obtain ⟨y, hy⟩ := exprOK_val anno env b hob
+  obtain ⟨_, _, _, hxlt, _⟩ := conv_val anno env hctx hnrm a hoa [] qa hqa x hx
   obtain ⟨_, _, _, hylt, _⟩ := conv_val anno env hctx hnrm b hob ob qb hqb y hy
   have hyw : y < 2 ^ t.w := by rw [← hwa, hwab]; exact hylt
   have hlv : evalBV env t.lhs = some (Conc.sub t.w x y) := by
@@ -179,12 +189,16 @@ theorem balSub_rot (t t' : Tru) (a b : BV) (hl : t.lhs = .bin .sub a b) (hok : T
     obtain ⟨_, hvb'⟩ := valOf_spec env b vb hvb
     rw [hy] at hvb'; cases hvb'
     simp only at hs
-    refine Or.inr ⟨⟨hoa, hs, hwa, conc_add_lt _ _ _⟩, rfl, rfl, (2 ^ t.w - y) % 2 ^ t.w, Nat.mod_lt _ (two_pow_pos' _), ?_, ?_⟩
+    refine Or.inr ⟨⟨hoa, hs, hwa, conc_add_lt _ _ _⟩, ⟨rfl, rfl, (2 ^ t.w - y) % 2 ^ t.w, Nat.mod_lt _ (two_pow_pos' _), ?_, ?_⟩, ?_⟩
     · simp only; rw [sub_neg_eq_add t.w t.r y hyw]
     · intro v' hv' _
       simp only at hv'
       rw [hx] at hv'; cases hv'
       rw [hlv, sub_as_add t.w x y hyw]
+    · intro v' hv'
+      simp only at hv'
+      rw [hx] at hv'; cases hv'
+      rw [← hwa]; exact hxlt
 
 /-- `_balance_signext` -/
 theorem balSext_pt (t t' : Tru) (k : Nat) (e : BV) (hl : t.lhs = .sext k e) (hok : TruOK anno env t) (hop : unsOp t.op = true)
